@@ -7,7 +7,7 @@ Nothing about the checks in /verif goes into it."""
 import json, os, sys, glob
 
 ROUND = sys.argv[1]
-THEMES = {
+THEMES_R10 = {
  "C01": "a refactoring that MERGES two similar branches / helper functions into one and loses a subtle difference between them (e.g. early vs late accept, first vs later states, str vs bytes)",
  "C02": "a comparison or boundary (`<` vs `<=`, `+1`, an `Option` default) that only matters when two quantities happen to be EQUAL, which ordinary inputs never make them",
  "C03": "a Unicode-specific corner: a particular code-point range or encoded width (2- vs 3- vs 4-byte, the last code point of a range, the gap of the surrogates) treated by a shortcut",
@@ -29,6 +29,30 @@ THEMES = {
  "C19": "an unusual token kind or size inside an attribute (raw strings, byte characters, suffixed or negative numbers, very long or deeply nested input, macro-generated groups) reaching an `unwrap` / index / slice",
  "C20": "a specific graph shape in only ONE of the two code generators (or only in the fast loop / only in jump tables)",
 }
+
+THEMES_R11 = {
+ "C01": "something that depends on the ORDER in which four or more patterns / variants are declared (leaf numbering, which of several equal candidates is visited first), invisible with two or three patterns",
+ "C02": "the interplay of the error span with a custom error type, an error callback, or a callback that returns Err - or a difference between str and [u8] in how the span end is rounded",
+ "C03": "chains of skips: several consecutive skipped regions, a skip at the very end of the input, a skip directly followed by an error, a skip pattern that is a prefix of a token",
+ "C04": "look-around assertions (word boundaries, $, (?m:^)) in a str lexer next to multi-byte text - the one-byte delay of such matches meeting a character that is several bytes long",
+ "C05": "table indexing or index arithmetic in the generated code (jump tables, bit-mask tables) for byte values >= 0x80, or a chunk read whose size is not a power of two",
+ "C06": "callbacks, extras, skip callbacks or error callbacks in the state-machine generator (the two generators build the call to user code separately)",
+ "C07": "partial mode together with look-around patterns, skip callbacks or callbacks that bump",
+ "C08": "three or more patterns with PARTIAL overlaps (A and B overlap, B and C overlap, A and C do not), mixing explicit and default priorities",
+ "C09": "case-insensitive groups, Unicode classes, counted repetitions {n,m}, or alternations nested inside repetitions when the default priority is computed",
+ "C10": "how the literal is escaped before it becomes a regex: metacharacters next to each other, a literal containing a line feed, NUL, DEL, quotes or a backslash at its end",
+ "C11": "subpattern NAMES: names that are prefixes of each other, names with digits or underscores, names that differ only in case, a name equal to a flag letter or to another keyword of the syntax",
+ "C12": "error spans and skipped regions on non-ASCII text: the two modes must cover the same bytes with errors although they may cut them differently",
+ "C13": "what a callback can DO besides returning: mutate extras, bump, read remainder(), return a value borrowed from the source - and how often / in which order that becomes visible",
+ "C14": "clone / morph with extras that are not Copy, morph between enums whose extras differ in type (Into), the source() accessor, a SpannedIter turned back into a Lexer",
+ "C15": "bump(0), a bump exactly to the end, a bump after next() returned None, a bump on a partial lexer, a bump on a lexer that was morphed or cloned",
+ "C16": "output that depends on the environment (working directory, an environment variable, the time, a temporary path, an address) or on iterating something keyed by an unstable value",
+ "C17": "non-logos attributes with unusual token shapes (raw-string docs, nested cfg_attr, attributes on the fields of tuple variants), generic parameters with defaults, const generics, where clauses",
+ "C18": "arguments INSIDE skip(...) and error(...) groups, named versus positional callbacks, trailing commas, the same argument list on several attributes of one variant",
+ "C19": "rarely used regex features: named groups, (?x) / (?U) / (?R) flags, rare Unicode properties, \\b{start} style assertions, \\A / \\z in the middle, empty alternation branches, counted repetitions near a limit",
+ "C20": "re-reading caused by late-accept / look-ahead states, by the restart after a skip, or by error recovery",
+}
+THEMES = {"r10": THEMES_R10}.get(ROUND, THEMES_R11)
 
 props = [json.loads(l) for l in open("/verif/properties.jsonl")]
 used = []
